@@ -32,10 +32,57 @@ def build_pair(impl, A, B):
     if mp is None:
         return impl.build(A), impl.build(B)
     which, t, mode = mp
-    f = impl.build_via_move if mode == 'move' else impl.build_with_decoy
+    if mode == 'move':
+        # the partner exists first and takes part in the priming queries (state memoised per partner must not survive the move);
+        # when the operand has a hash twin one unit away it arrives from there: the move leaves its hash unchanged
+        if which == 0:
+            b = impl.build(B)
+            return impl.build_via_move(A, gen.translation_twin(A) or t, partner=b), b
+        a = impl.build(A)
+        return a, impl.build_via_move(B, gen.translation_twin(B) or t, partner=a)
     if which == 0:
-        return f(A, t), impl.build(B)
-    return impl.build(A), f(B, t)
+        return impl.build_with_decoy(A, t), impl.build(B)
+    return impl.build(A), impl.build_with_decoy(B, t)
+
+
+def replay_preamble(impl, A, B):
+    """a follow-up case (one operand is the hash twin of the operand of the case before it) only fails AFTER that case: before a
+    replay, every query of the pair is asked on the twin configurations of the case (hash_twin is an involution)"""
+    for A0, B0 in twin_followups(A, B):
+        try:
+            a, b = impl.build(A0), impl.build(B0)
+        except Exception:
+            continue
+        for f in (lambda: impl.intersection(a, b), lambda: a in b, lambda: b in a, lambda: impl.distance(a, b), lambda: a == b):
+            try:
+                f()
+            except Exception:
+                pass
+
+
+def twin_followups(A, B):
+    """follow-up cases run right after (A, B) in the same process: one operand replaced by a hash twin (a different object with the
+    same library hash, gen.hash_twin).  Anything memoised under hashes answers the follow-up with the result of the first call."""
+    out = []
+    ta = gen.hash_twin(A) if A[0] not in ('N', 'none') else None
+    tb = gen.hash_twin(B) if B[0] not in ('N', 'none') else None
+    def shift(o, tw):      # twins that are translates of the object: the whole configuration translated has the same answer, translated
+        if o[0] in ('P', 'PL'):
+            return E.sub(tw[1], o[1])
+        if o[0] == 'G':
+            return E.sub(tw[1][0], o[1][0])
+        return None
+    if ta is not None:
+        out.append((ta, B))
+        t = shift(A, ta)
+        if t is not None and B[0] not in ('N', 'none', 'V'):
+            out.append((ta, gen.translate_obj(B, t)))
+    if tb is not None:
+        out.append((A, tb))
+        t = shift(B, tb)
+        if t is not None and A[0] not in ('N', 'none', 'V'):
+            out.append((gen.translate_obj(A, t), tb))
+    return out
 
 
 def observe(impl, A, B, method=False):
@@ -122,6 +169,7 @@ def replay_pair(ctx, prop, case, method=False):
     c = case['case']
     A, B = gen.from_jsonable(c['a']), gen.from_jsonable(c['b'])
     method = method or c.get('form') == ' [method form]'
+    replay_preamble(impl, A, B)
     obs = observe(impl, A, B, method)
     ml = core.model_lines(['inter %s %s' % (tok(A), tok(B))])[0]
     m = compare.parse_model(ml)
